@@ -28,10 +28,13 @@ LIST_KEYS = ("tree",)
 
 RULE = ("one evaluation = one seeded scenario (a nesting tree of curtsies contexts with bodies of renders, requests, "
         "trigger creation/calls and cursor queries, from a random initial tty/signal/terminal state, as main or non-main "
-        "thread) executed once normally and once per enumerated crash point: an exception (BaseException or Exception "
-        "subclass) after every prefix of every body, SIGINT under the default handler during every blocked request, "
-        "OSError(EIO) inside every read of the stream. Around every context the state before entering is compared with "
-        "the state after leaving. distinct = distinct SHA-1 over the event logs of all executions of a scenario; "
+        "thread; shapes include one object used again in changed surroundings, the same use repeated 3-5 times, a fresh "
+        "object per use) executed once normally and once per enumerated crash point: an exception (BaseException / Exception "
+        "subclass, SystemExit, KeyboardInterrupt, GeneratorExit) after every prefix of every body, SIGINT under the default "
+        "handler at two moments of every blocked request and during a slow cursor query, OSError(EIO) inside every read of "
+        "a request, the same fault in every one of the repeated uses. Around every context the state before entering is "
+        "compared with the state after leaving (termios attributes, status flags, all signal handlers, signal mask, wake-up "
+        "fd, descriptors by identity, cursor visibility, buffers, further terminal modes). distinct = distinct SHA-1 over the event logs of all executions of a scenario; "
         "non-trivial = at least one crash point / fault fired inside an open context")
 STATE_DEF = "(stack of open context kinds at the crash point, crash kind, main/non-main, initial O_NONBLOCK, initial wake-up fd present)"
 COMPONENTS = {
